@@ -6,9 +6,9 @@ Trace == ndJsonDeserialize(IOEnv.VERIF_TRACE)
 VL == INSTANCE VerdictLib
 VARIABLES l, verdicts
 tvars == <<l, verdicts>>
+AddV(vs) == IF VL!Record(vs) THEN verdicts + Len(vs) ELSE verdicts   \* verdicts: a counter; the records live in a TLC register
 R == INSTANCE Router WITH Names <- {}, TypeSets <- {}, NsSets <- {}, MaxRoutes <- 0, AddrKinds <- {}, Emit <- FALSE, table <- <<>>, pkt <- 0
 Verdict(clause, sig, tid, detail) == [prop |-> "C06", clause |-> clause, sig |-> sig, tid |-> tid, idx |-> l, detail |-> detail]
-AddV(vs) == VL!AddVTo(verdicts, vs)
 Ev(n) == l <= Len(Trace) /\ Trace[l].ev = n
 
 ToSet(a) == {a[i] : i \in 1..Len(a)}
@@ -37,10 +37,10 @@ T_Route == /\ Ev("route")
               IN verdicts' = IF R!Asserted(t, p) THEN AddV(v0 \o v1 \o v2) ELSE verdicts
            /\ l' = l + 1
 T_End == /\ Ev("end")
-         /\ PrintT(<<"VERDICTS", ToJson(verdicts)>>)
+         /\ PrintT(<<"VERDICTS", ToJson(VL!All)>>)
          /\ PrintT(<<"CONSUMED", l>>)
          /\ l' = l + 1 /\ UNCHANGED verdicts
-TraceInit == l = 1 /\ verdicts = <<>>
+TraceInit == l = 1 /\ verdicts = 0 /\ VL!InitV
 TraceNext == T_Route \/ T_End
 TraceSpec == TraceInit /\ [][TraceNext]_tvars
 =============================================================================
